@@ -314,6 +314,7 @@ inductive Nargs | one | opt | zero deriving DecidableEq, Repr, Inhabited
 inductive Act
   | ignore
   | append (dest : String)
+  | undefine (dest : String)     -- `_UndefineAction` (`-U`): drop the definitions of the named macro made so far
   | appendConst (dest const : String)
   | storeSplit (dest : String) (sep format : Option String)
   | extendMatch (dest flag0 : String) (format : Option String) (override : Bool)
@@ -328,6 +329,7 @@ deriving Repr, DecidableEq, Inhabited
 /-- the fixed options of `parse_args` (with the D14 / D20 repairs of the pinned tree) -/
 def baseTable : List Opt := [
   ⟨["-D"], .one, .append "defines"⟩,
+  ⟨["-U"], .one, .undefine "defines"⟩,
   ⟨["-I"], .one, .append "include_paths"⟩,
   ⟨["-isystem"], .one, .append "system_include_paths"⟩,
   ⟨["-include"], .one, .append "include_files"⟩,
@@ -469,12 +471,17 @@ def initState (rules : List Rule) : PState :=
               ("modes", []), ("passes", [])],
     passesByFlag := passDefaults rules }
 
-/-- `take_action`: the built-in `append` / `append_const` actions and CBI's two custom actions -/
+/-- `re.split(r"[=(]", d, 1)[0]`: the macro name of a `-D` value -/
+def macroName (d : String) : String := String.ofList (d.toList.takeWhile fun c => c != '=' && c != '(')
+
+/-- `take_action`: the built-in `append` / `append_const` actions and CBI's custom actions -/
 def takeAction (mt : Matches) (st : PState) (ostr : String) (o : Opt) (val : Option String) : Except PErr PState :=
   match o.act, val with
   | .ignore, _ => .ok st
   | .append d, some v => .ok (st.appendTo d v)
   | .append _, none => .ok st
+  | .undefine d, some v => .ok (st.set d ((st.get d).filter fun x => macroName x != v))
+  | .undefine _, none => .ok st
   | .appendConst d c, _ => .ok (st.appendTo d c)
   | .storeSplit d sep fmt, some v =>
     match pySplit v sep with
